@@ -420,12 +420,47 @@ def run(rep, pdb, tier):
         pu = [e for e in effects(pdb, rc) if e.kind == "push"]
         st = [e for e in effects(pdb, rc) if e.kind == "set"]
         okr = len(pu) == 1 and len(st) == 1
+        alt = False
         if okr:
             p_, s_ = pu[0], st[0]
             ri_ = for_range(rc, p_.loops[0]) if p_.loops else None
             rs0 = for_range(rc, s_.loops[0]) if s_.loops else None
             okr = ri_ is not None and rs0 is not None
-        if okr:
+            if rs0 is not None and len(s_.loops) in (1, 2):
+                # the second, equivalent spelling: coordinates = every stride-th token (`tokens.iter().step_by(stride)`, or the `i % stride == 0`
+                # loop), variables = `vars[i / stride][i % stride - 1]` for every token with `i % stride != 0`
+                i2 = rs0[0]
+                md = ("op", "%", i2, stride)
+                fs2 = facts(rc, s_.node)
+                nonzero = any(f[0] == "cmp" and f[1] == "!=" and {f[2], f[3]} == {md, num(0)} for f in fs2) or any(f[0] == "cmp" and f[1] == "<" and f[2] == num(0) and f[3] == md for f in fs2)
+                slot2 = s_.target == ("idx", VARS, ("op", "/", i2, stride)) and lin_add(s_.index, num(1)) == md
+                if len(s_.loops) == 2:
+                    # the variable picked by an inner loop `for var in 0..nvars { if i % stride == var + 1 { .. } }`
+                    rv2 = for_range(rc, s_.loops[1])
+                    v2 = rv2[0] if rv2 else None
+                    nonzero = v2 is not None and rv2[1:4] == (num(0), NV, False) and any(f[0] == "cmp" and f[1] == "==" and {f[2], f[3]} == {md, lin_add(v2, num(1))} for f in fs2)
+                    slot2 = s_.target == ("idx", VARS, ("op", "/", i2, stride)) and s_.index == v2
+                tokv = lambda v_: v_[0] == "call" and str(v_[1]).endswith("unwrap") and v_[2][0] == "call" and str(v_[2][1]).endswith("from_str")
+                toks = s_.value[2][2][1] if tokv(s_.value) and s_.value[2][2][0] == "idx" and s_.value[2][2][2] == i2 else None
+                full2 = toks is not None and rs0[1] == num(0) and rs0[2] == ("len", toks) and not rs0[3]
+                coord2 = False
+                if toks is not None and tokv(p_.value) and p_.loops:
+                    lp_ = p_.loops[0]
+                    it_ = rc.term(lp_["iter"]) if lp_.get("k") == "For" and lp_.get("iter") is not None else None
+                    if it_ is not None and it_[0] == "call" and str(it_[1]).endswith("::step_by") and it_[2] == ("call", "[T]::iter", toks) and it_[3] == stride and \
+                            lp_["pat"].get("k") == "Bind" and p_.value[2][2] == ("var", lp_["pat"]["v"]):
+                        coord2 = True
+                    elif ri_ is not None and p_.value[2][2] == ("idx", toks, ri_[0]) and ri_[1] == num(0) and ri_[2] == ("len", toks) and \
+                            any(f[0] == "cmp" and f[1] == "==" and {f[2], f[3]} == {("op", "%", ri_[0], stride), num(0)} for f in facts(rc, p_.node)):
+                        coord2 = True
+                splitws = toks is not None and toks[0] == "call" and str(toks[1]).endswith("collect") and toks[2][0] == "call" and str(toks[2][1]).endswith("split_whitespace")
+                nb2 = rc.binds.get(p_.target[1]) if p_.target[0] == "var" else None
+                nfresh2 = nb2 is not None and nb2.init is not None and rc.term(nb2.init)[0] == "call" and str(rc.term(nb2.init)[1]).endswith("::empty") and len(rc.term(nb2.init)) == 2
+                repl2 = [e for e in effects(pdb, rc) if e.kind == "assign" and e.target == NODES and e.value == p_.target]
+                alt = bool(nonzero and slot2 and full2 and coord2 and splitws and nfresh2 and len(repl2) == 1)
+        if alt:
+            okr = True
+        elif okr:
             i = ri_[0]
             fp = facts(rc, p_.node)
             iscoord = any(f[0] == "cmp" and f[1] == "==" and {f[2], f[3]} == {("op", "%", i, stride), num(0)} for f in fp)
